@@ -38,13 +38,27 @@ def _ms(t):
 RANK_BASE = 2 ** 20          # Events.rank_base
 
 
+SUITE_POSITIONS = [False]     # live streams: encode (suite.rank, position) for suites too (set by harness/corun.py)
+
+
 def _sort_key(n):
-    """Events.n_rank: suite.rank for a suite; for a test the integer order-isomorphic to the pair ReportWriter sorts by,
-    (test.rank, position of the test in test.parent_suite.get_tests())."""
+    """Events.n_rank: for a test the integer order-isomorphic to the pair ReportWriter sorts by,
+    (test.rank, position of the test in test.parent_suite.get_tests()).  For a suite the writer (since the repair F24) sorts by
+    (suite.rank, position among the parent's suites, or the position the runner gave to a top-level suite): encoded the same way
+    for LIVE streams (SUITE_POSITIONS); for the replay correspondence the suite's rank alone is kept -- Replay.v emits 0 for the
+    suites of a loaded report, and on the sequential stream of a replay the arrival order of sibling suites IS their position
+    order, so the stable sort of the model and the (rank, position) sort of the code give the same list."""
     from lemoncheesecake.testtree import BaseTest
     rank = getattr(n, "rank", 0)
     if not isinstance(n, BaseTest):
-        return rank
+        if not SUITE_POSITIONS[0]:
+            return rank
+        if n.parent_suite:
+            pos = next((i for i, s in enumerate(n.parent_suite.get_suites()) if s is n), 0)
+        else:
+            pos = getattr(n, "position", 0)
+        assert isinstance(rank, int) and 0 <= pos < RANK_BASE, (rank, pos)
+        return rank * RANK_BASE + pos
     siblings = n.parent_suite.get_tests() if n.parent_suite else [n]
     pos = next((i for i, s in enumerate(siblings) if s is n), 0)
     assert isinstance(rank, int) and 0 <= pos < RANK_BASE, (rank, pos)
